@@ -8,7 +8,9 @@ PROPERTY = 'C14'
 LEVEL = 'exploration'
 RULE = ('every loop "async for now in interval(p)/delay(p)" with p in {0,1,2,0.5} (and -1), every sequence of <= 3 (quick) / 4 '
         '(thorough) body durations from {none, instant, 1, 2, 3}, start time in {0,3,0.5}, iterator created 0 or 1 before iterating; '
-        'alone, next to a second ticker, and inside until(delay); always next to a competing activity that is runnable in every time '
+        'alone, next to a second ticker, inside until(delay), cut off by run(till=), next to a volatile ticker that is closed while '
+        'pausing (the root ticks on afterwards), launched with scope.do(at=/after=) from start times {0,-2,-4}, and with integer clocks '
+        'at 2**53 and 10**17+1; always next to a competing activity that is runnable in every time '
         'step. Oracle: arithmetic model of tick times / yielded values / IntervalExceeded, and the competitor must get a turn between '
         'two iterations whenever the clock does not advance; non-trivial = some body took at least as long as the period, or p = 0')
 ASSUMPTIONS = [
@@ -31,19 +33,32 @@ def spinner(times):
     return s
 
 
-def program(kind, period, durs, start, pre, second=None, until=None):
+def program(kind, period, durs, start, pre, second=None, until=None, launch=None, closed=None, whole=False, till=None):
+    """launch: options of scope.do for the ticker ({'at': t} / {'after': d}); closed: (kind, period) of a volatile ticker in the same
+    scope that is closed forcefully while it pauses - the root ticks on afterwards; whole: only whole-numbered dates are used
+    (for clocks so large that halves cannot be represented); till: run(till=...), the ticker is cut off there"""
     op = [kind, period, len(durs), [DUR[d] for d in durs]] + ([pre] if pre else [])
     script = [['TRY', [op]], ['PROBE', 'now']]
     if until is not None:
         script = [['UNTIL', 'u', ['DELAY', until], [['TRY', [op]]]], ['PROBE', 'now']]
-    kids = [['DO', 'tk', script]]
+    kids = [['DO', 'tk', script] + ([launch] if launch else [])]
     if second:
         k2, p2, d2 = second
         kids.append(['DO', 'tk2', [['TRY', [[k2, p2, len(d2), [DUR[d] for d in d2]]]], ['PROBE', 'now']]])
-    horizon = [x * 0.5 for x in range(0, 30)]
+    after = []
+    if closed:
+        k3, p3 = closed
+        kids.insert(0, ['DO', 'tkv', [[k3, p3, 50, []]], {'volatile': True}])
+        # the simulation goes on past the date at which the closed ticker would have ticked next
+        after = [['TRY', [['INTERVAL', 2, 3, [[], [], []]]]], ['D', 8], ['PROBE', 'now']]
+    horizon = [x * (1 if whole else 0.5) for x in range(0, 15 if whole else 30)]
     kids.append(['DO', 'spin', spinner(horizon), {'volatile': True}])
-    return {'start': start, '_nops': 200, '_meta': {'kind': kind, 'period': period, 'durs': list(durs), 'pre': pre, 'until': until},
-            'roots': [['root', [['SCOPE', 's', kids]]]]}
+    prog = {'start': start, '_nops': 200, '_meta': {'kind': kind, 'period': period, 'durs': list(durs), 'pre': pre, 'until': until,
+                                                     'launch': launch, 'till': till},
+            'roots': [['root', [['SCOPE', 's', kids]] + after]]}
+    if till is not None:
+        prog['till'] = till
+    return prog
 
 
 def BOUNDS(tier):
@@ -82,6 +97,29 @@ def cases(tier):
                 for seq in ([period] * k, ['n'] + [period] * (k - 1), [period, 'i'] * (k // 2)):
                     out.append(program(kind, period, seq, 0, None))
                     out.append(program(kind, period, seq, 0.2, None))
+    # a ticker that is closed forcefully while it pauses (volatile child at the end of its scope / run(till=...)) leaves
+    # nothing behind: the tickers that go on afterwards are undisturbed
+    for kind in ('INTERVAL', 'DELAYLOOP'):
+        for period in (1, 2):
+            for seq in seqs[:30]:
+                for closed in (('INTERVAL', 3), ('DELAYLOOP', 7), ('INTERVAL', 5)):
+                    out.append(program(kind, period, seq, 0, None, closed=closed))
+                for till in (2, 3, 4):
+                    out.append(program(kind, period, seq, 0, None, till=till))
+                    out.append(program(kind, period, seq, 3, None, till=till))
+    # tickers launched with scope.do(..., at= / after=): the grid is anchored where the ticker really starts
+    for kind in ('INTERVAL', 'DELAYLOOP'):
+        for period in (1, 2):
+            for seq in seqs[:12]:
+                for start in (0, -2, -4):
+                    for launch in ({'at': 2}, {'at': 4}, {'after': 2}, {'after': 0}, {'at': 0}):
+                        out.append(program(kind, period, seq, start, None, launch=launch))
+    # integer clocks beyond the range in which floats are exact: dates stay exact integers
+    for kind in ('INTERVAL', 'DELAYLOOP'):
+        for period in (1, 2):
+            for seq in seqs[:12]:
+                for start in (2 ** 53, 10 ** 17 + 1):
+                    out.append(program(kind, period, seq, start, None, whole=True))
     return out
 
 
@@ -113,19 +151,30 @@ def judge(ctx, program):
     msgs = []
     log = ctx.log
     nontrivial = False
-    for act in ('tk', 'tk2'):
+    launch = program['_meta'].get('launch')
+    start = program.get('start', 0)
+    for act in ('tk', 'tk2', 'root'):
         begin = next((i for i, r in enumerate(log) if r[0] == 'iter-begin' and r[1] == act), None)
         if begin is None:
+            if act == 'root' and len(program['roots'][0][1]) > 1 and program['_meta'].get('till') is None:
+                msgs.append('the root never started to tick after its scope')
             continue
         pc = log[begin][2]
         op = op_of(program, act, pc)
         meta = {'kind': op[0], 'period': op[1], 'durs': program['_meta']['durs'] if act == 'tk' else None}
-        if act == 'tk2':
+        if act != 'tk':
             meta['durs'] = durs_of(op)
+        if act == 'tk' and launch:
+            anchor = start + launch['at'] if 'at' in launch else start + launch['after']
+            if log[begin][3] != anchor:
+                msgs.append('ticker launched with %r in a simulation starting at %r began to iterate at %r, expected %r' % (
+                    launch, start, log[begin][3], anchor))
         dl = INF
+        if program['_meta'].get('till') is not None:
+            dl = start + program['_meta']['till']
         if program['_meta']['until'] is not None and act == 'tk':
             ent = next(r for r in log if r[0] == 'scope-enter' and r[1] == act)
-            dl = ent[3] + program['_meta']['until']
+            dl = min(dl, ent[3] + program['_meta']['until'])
         ticks, outcome = expected(meta, log[begin][3])
         got = [(i, r[3], r[4]) for i, r in enumerate(log) if r[0] == 'tick' and r[1] == act and r[2] == pc]
         fin = next(((r[0], r[3], r[4]) for r in log[begin:] if r[0] in ('end', 'exc') and r[1] == act and r[2] == pc), None)
